@@ -2,7 +2,7 @@
 No reference model: these programs feed the differential checks (C04, C18) only."""
 
 TEMPLATES = ["dup_class_names", "big_string", "many_functions", "control_flow", "string_builtins", "optionals", "numeric_kinds",
-             "many_locals", "deep_expr", "long_ident", "many_args", "many_closures", "deep_nesting"]
+             "many_locals", "deep_expr", "long_ident", "many_args", "many_closures", "deep_nesting", "huge_string"]
 SPECIALS = ['\\"', "\\\\", " ", "\\t", "\\n", "é", " ", "n", "#", "'"]
 
 
@@ -58,6 +58,12 @@ def render(spec):
         L.append("pick = fn(x: int) -> str? {\n\tif x > %d {\n\t\treturn \"big\"\n\t}\n\treturn nil\n}\nprint pick(%d)\nprint (pick(0)) or \"small\"" % (a, b))
         L.append("w: str? = nil\nif w ?= pick(%d) {\n\tprint \"got \" + w\n} else {\n\tprint \"none\"\n}" % b)
         L.append("xs: [int?...] = [1, nil, %d]\nprint xs\nprint xs[1] == nil" % a)
+    elif t == "huge_string":
+        # one instruction argument around 64 KiB (plain characters compile fast)
+        size = [65520, 65530, 65531, 65535, 65536, 65540, 70000, 131080][spec["n"] % 8]
+        body = "<" + ("abcdefghij" * (size // 10 + 1))[:size - 2] + ">"
+        L.append('s = "%s"' % body)
+        L.append('print s.len()\nprint s.substring(0, 3)\nprint s.substring(s.len() - 3, s.len())\nprint s.contains("j>")')
     elif t == "many_locals":
         n = spec["n"]
         for i in range(n):
